@@ -141,7 +141,13 @@ func pathsOverlap(a, b string) bool {
 }
 
 // targetsAreOrdered returns true if a and b are in the same dependency chain.
+// A target is trivially ordered with itself: two overlapping outputs of one
+// target (e.g. dir::dist and dist/main) are written by the same command and cannot race.
 func targetsAreOrdered(graph *dag.DirectedTargetGraph, a, b model.BuildNode, ancestorCache map[label.TargetLabel]map[label.TargetLabel]struct{}) bool {
+	if a.GetLabel() == b.GetLabel() {
+		return true
+	}
+
 	if ancestorCache == nil {
 		ancestorCache = make(map[label.TargetLabel]map[label.TargetLabel]struct{})
 	}
